@@ -153,6 +153,13 @@ func msgCases(c *Ctx) []json.RawMessage {
 		h := []byte{byte(v >> 8), byte(v), 0, 1, 0, 0, 0, 2, 'o', 'k', 0, 0, 0, 7}
 		add(WireCase{Kind: "msgbegin", Only: "dec", Hex: hexOf(&SegBuf{b: h})})
 	}
+	// a first word WITHOUT the strict-version marker is a bad version as soon as the word is there, however little follows
+	for _, v := range []uint32{0x00000000, 0x00010001, 0x7fffffff, 0x80000001, 0x80020001, 0x8101ffff, 0x50494e47 /* "PING" */, 0x47455420 /* "GET " */, 0xffffffff} {
+		h := []byte{byte(v >> 24), byte(v >> 16), byte(v >> 8), byte(v), 0, 0, 0, 2, 'o', 'k', 0, 0, 0, 7}
+		for k := 0; k <= len(h); k++ {
+			add(WireCase{Kind: "msgbegin", Only: "dec", Hex: hexOf(&SegBuf{b: h[:k]})})
+		}
+	}
 	full := []byte{0x80, 0x01, 0, 2, 0, 0, 0, 5, 'h', 'e', 'l', 'l', 'o', 0xff, 0xff, 0xff, 0xfe}
 	for k := 0; k <= len(full); k++ {
 		add(WireCase{Kind: "msgbegin", Only: "dec", Hex: hexOf(&SegBuf{b: full[:k]})})
